@@ -175,7 +175,7 @@ func batchCarriers(c *Ctx) map[string]bool {
 		}
 		n := 0
 		for j := 0; j < inner.NumFields(); j++ {
-			if b1Fields[inner.Field(j).Name()] {
+			if b1Fields[inner.Field(j).Name()] || batchRoleOfType(inner.Field(j).Type()) != "" {
 				n++
 			}
 		}
@@ -186,18 +186,156 @@ func batchCarriers(c *Ctx) map[string]bool {
 	return out
 }
 
-// batchFieldOf: the access is to a batch field of the service or of a batch carrier object; returns the field's name.
+// batchRoleOfType: the batch role a field has by its type, whatever it is called: the column list and the promise list.
+func batchRoleOfType(t types.Type) string {
+	sl, ok := t.Underlying().(*types.Slice)
+	if !ok {
+		return ""
+	}
+	if nt := namedOf(sl.Elem()); nt != nil && nt.Obj().Name() == "IColPoolRes" {
+		return "columns"
+	}
+	if pt, ok := sl.Elem().Underlying().(*types.Pointer); ok {
+		if nt := namedOf(pt.Elem()); nt != nil && nt.Obj().Name() == "Promise" {
+			return "results"
+		}
+	}
+	return ""
+}
+
+// sharedCarrierBase: the carrier object the field is taken from is the one the service holds (a field of the service, embedded or
+// through a pointer) or the receiver of one of the carrier's own methods — not a detached copy that left the service (the swapped-out
+// portion the flush loop works on).
+func sharedCarrierBase(fa *ssa.FieldAddr) bool {
+	isSvc := func(t types.Type) bool {
+		if p, ok := t.Underlying().(*types.Pointer); ok {
+			t = p.Elem()
+		}
+		nt := namedOf(t)
+		return nt != nil && nt.Obj().Name() == "InsertServiceV2"
+	}
+	switch x := fa.X.(type) {
+	case *ssa.FieldAddr:
+		return isSvc(x.X.Type()) || sharedCarrierBase(x)
+	case *ssa.UnOp:
+		if in, ok := x.X.(*ssa.FieldAddr); ok {
+			return isSvc(in.X.Type()) || sharedCarrierBase(in)
+		}
+	case *ssa.Parameter:
+		// the receiver of one of the carrier's own methods: shared when some call site hands it the service's object (or when the
+		// call sites cannot be seen)
+		fn := x.Parent()
+		if fn == nil || fn.Signature.Recv() == nil || len(fn.Params) == 0 || fn.Params[0] != x {
+			return false
+		}
+		if sharedBaseCtx == nil || sharedBaseDepth > 4 {
+			return true
+		}
+		sharedBaseDepth++
+		defer func() { sharedBaseDepth-- }()
+		sites := callSitesOf(sharedBaseCtx, fn)
+		if len(sites) == 0 {
+			return true
+		}
+		for _, site := range sites {
+			if len(site.Common().Args) == 0 {
+				return true
+			}
+			switch a := site.Common().Args[0].(type) {
+			case *ssa.FieldAddr:
+				if isSvc(a.X.Type()) || sharedCarrierBase(a) {
+					return true
+				}
+			case *ssa.UnOp:
+				if in, ok := a.X.(*ssa.FieldAddr); ok && (isSvc(in.X.Type()) || sharedCarrierBase(in)) {
+					return true
+				}
+			case *ssa.Parameter:
+				// handed on from another method of the carrier
+				if pf := a.Parent(); pf != nil && pf != fn && pf.Signature.Recv() != nil && len(pf.Params) > 0 && pf.Params[0] == a {
+					if sharedCarrierBase(&ssa.FieldAddr{X: a}) {
+						return true
+					}
+				}
+			}
+		}
+		return false
+	}
+	return false
+}
+
+// sharedBaseCtx: the analysis context sharedCarrierBase resolves call sites with (set by batchFieldOf).
+var sharedBaseCtx *Ctx
+var sharedBaseDepth int
+
+// batchFieldOf: the access is to a batch field of the service or of a batch carrier object the service holds; returns the field's
+// canonical name (carrier fields are recognised by type — column list, promise list — or by the service's field names).
 func batchFieldOf(c *Ctx, fa *ssa.FieldAddr) (string, bool) {
 	k := fieldKey(fa.X.Type(), fa.Field)
 	f := k[strings.LastIndex(k, ".")+1:]
-	if !b1Fields[f] {
+	owner := k[:strings.LastIndex(k, ".")]
+	if strings.HasSuffix(owner, "service.InsertServiceV2") {
+		return f, b1Fields[f]
+	}
+	if !batchCarriers(c)[owner] {
 		return "", false
 	}
-	owner := k[:strings.LastIndex(k, ".")]
-	if strings.HasSuffix(owner, "service.InsertServiceV2") || batchCarriers(c)[owner] {
-		return f, true
+	t := fa.X.Type()
+	if p, ok := t.Underlying().(*types.Pointer); ok {
+		t = p.Elem()
 	}
-	return "", false
+	if st, ok := t.Underlying().(*types.Struct); ok && fa.Field < st.NumFields() {
+		if r := batchRoleOfType(st.Field(fa.Field).Type()); r != "" {
+			f = r
+		}
+	}
+	sharedBaseCtx = c
+	if !b1Fields[f] || !sharedCarrierBase(fa) {
+		return "", false
+	}
+	return f, true
+}
+
+// carrierFieldsOf: the canonical batch fields of a carrier struct type.
+func carrierFieldsOf(nt *types.Named) []string {
+	inner, ok := nt.Underlying().(*types.Struct)
+	if !ok {
+		return nil
+	}
+	var out []string
+	for j := 0; j < inner.NumFields(); j++ {
+		f := inner.Field(j).Name()
+		if r := batchRoleOfType(inner.Field(j).Type()); r != "" {
+			f = r
+		}
+		if b1Fields[f] {
+			out = append(out, f)
+		}
+	}
+	return out
+}
+
+// carrierLoad: the instruction reads a whole carrier object out of the service (`taken := svc.pending`): every batch field is read.
+func carrierLoad(c *Ctx, u *ssa.UnOp) []string {
+	fa, ok := u.X.(*ssa.FieldAddr)
+	if !ok || u.Op != token.MUL {
+		return nil
+	}
+	nt := namedOf(u.Type())
+	if nt == nil || nt.Obj().Pkg() == nil || !batchCarriers(c)[nt.Obj().Pkg().Path()+"."+nt.Obj().Name()] {
+		return nil
+	}
+	if st := namedOf(derefType(fa.X.Type())); st == nil || st.Obj().Name() != "InsertServiceV2" {
+		return nil
+	}
+	return carrierFieldsOf(nt)
+}
+
+func derefType(t types.Type) types.Type {
+	if p, ok := t.Underlying().(*types.Pointer); ok {
+		return p.Elem()
+	}
+	return t
 }
 
 // carrierStore: the store replaces a whole batch carrier object (`*b = batchBuffer{…}`): every batch field of it is written.
@@ -210,17 +348,16 @@ func carrierStore(c *Ctx, st *ssa.Store) []string {
 	if nt == nil || nt.Obj().Pkg() == nil || !batchCarriers(c)[nt.Obj().Pkg().Path()+"."+nt.Obj().Name()] {
 		return nil
 	}
-	if _, isField := st.Addr.(*ssa.FieldAddr); isField {
-		// svc.pending = batchBuffer{…}
-	}
-	inner := nt.Underlying().(*types.Struct)
-	var out []string
-	for j := 0; j < inner.NumFields(); j++ {
-		if b1Fields[inner.Field(j).Name()] {
-			out = append(out, inner.Field(j).Name())
+	// a detached copy being filled (`taken := svc.pending` stores into a local) is not the shared object
+	switch a := st.Addr.(type) {
+	case *ssa.FieldAddr:
+		if sn := namedOf(derefType(a.X.Type())); sn == nil || sn.Obj().Name() != "InsertServiceV2" {
+			return nil
 		}
+	case *ssa.Alloc:
+		return nil
 	}
-	return out
+	return carrierFieldsOf(nt)
 }
 
 // trioWrites: the instructions of fn that write a shared batch field — a store, or a call of a function that (without taking the
@@ -249,6 +386,11 @@ func (l *svcLocks) trioWrites(fn *ssa.Function, depth int, memo map[*ssa.Functio
 				// a read of a batch field belongs to the swap as well (marked "r:" — it does not count as a written field)
 				if fa, ok := x.X.(*ssa.FieldAddr); ok && x.Op == token.MUL {
 					if f, ok := batchFieldOf(l.c, fa); ok && b2Trio[f] {
+						out[ins] = append(out[ins], "r:"+f)
+					}
+				}
+				for _, f := range carrierLoad(l.c, x) {
+					if b2Trio[f] {
 						out[ins] = append(out[ins], "r:"+f)
 					}
 				}
